@@ -47,7 +47,12 @@ func (t Threshold) IsValid([]byte) error {
 }
 
 func (t Threshold) Threshold(quorum uint) uint {
-	return uint(math.Ceil(float64(quorum) * (t / MaxThreshold).Float64()))
+	// NOTE threshold has one decimal place(see String() and Equal()); the
+	// ceiling is calculated by integer arithmetic, float multiplication rounds
+	// up exact products, for example, 25 * 56.0 / 100 = 14.
+	t10 := uint64(math.Round(t.Float64() * 10)) //nolint:gomnd //...
+
+	return uint((uint64(quorum)*t10 + 999) / 1000) //nolint:gomnd //...
 }
 
 func (t Threshold) VoteResult(quorum uint, set []string) (result VoteResult, key string) {
